@@ -254,6 +254,9 @@ func (s *dispatchSys) shapeBytes(sh string, peer proto.PeerAddress) []byte {
 		return stun.MustBuild(txidSetter(tid), stun.NewType(stun.MethodSend, stun.ClassIndication), peer).Raw
 	case "sendNoPeer":
 		return stun.MustBuild(txidSetter(tid), stun.NewType(stun.MethodSend, stun.ClassIndication), proto.Data(s.fill(9, "d"))).Raw
+	case "sendEmptyPeer48": // 20 + (4 + 20) + (4 + 0) = 48 bytes, the empty XOR-PEER-ADDRESS last
+		return stun.MustBuild(txidSetter(tid), stun.NewType(stun.MethodSend, stun.ClassIndication), proto.Data(s.fill(20, "d")),
+			stun.RawAttribute{Type: stun.AttrXORPeerAddress, Value: []byte{}}).Raw
 	case "bindingOK":
 		return req(stun.MethodBinding)
 	case "bindingUnkOpt":
@@ -540,6 +543,10 @@ func (s *dispatchSys) doClient(a map[string]any, wait func()) ([]Obs, error) {
 		msgs = [][]byte{ind(stun.MethodConnectionAttempt, pa, stun.RawAttribute{Type: stun.AttrConnectionID, Value: []byte{1, 2}})}
 	case "attemptOK":
 		msgs = [][]byte{ind(stun.MethodConnectionAttempt, pa, proto.ConnectionID(uint32(1000+s.step)))} //nolint:gosec
+	case "dataIndEmptyPeer": // XOR-PEER-ADDRESS of length zero as the last attribute
+		msgs = [][]byte{ind(stun.MethodData, proto.Data(s.fill(5, "d")), stun.RawAttribute{Type: stun.AttrXORPeerAddress, Value: []byte{}})}
+	case "attemptEmptyPeer":
+		msgs = [][]byte{ind(stun.MethodConnectionAttempt, proto.ConnectionID(5), stun.RawAttribute{Type: stun.AttrXORPeerAddress, Value: []byte{}})}
 	case "cdKnown":
 		msgs = [][]byte{append([]byte{0x40, 0x00, 0x00, 0x04}, s.fill(4, "cd")...)}
 	case "cdKnownCookie":
